@@ -41,7 +41,7 @@ def residue_family(country: str, base: str, want: int = 97, cap: int = 20000):
     return out, len(seen)
 
 
-def check_member(country: str, bban: str):
+def check_member(country: str, bban: str, between=None):
     """-> list of (signature, case, expected, observed) for one family member; and eval count"""
     bad = []
     ref = ri.check_digits(country, bban)
@@ -54,6 +54,8 @@ def check_member(country: str, bban: str):
         bad.append(("from_bban-wrong-digits", {**case, "dd": None}, country + ref + bban, val))
     if not ("02" <= ref <= "98"):
         bad.append(("reference-digits-out-of-range", {**case, "dd": None}, "02..98", ref))
+    if between is not None:
+        between()
     for d in range(100):
         dd = f"{d:02d}"
         k, v = lib.iban_parse(country + dd + bban)
@@ -68,6 +70,8 @@ def check_member(country: str, bban: str):
 
 
 def shard(args):
+    if args[0] == "after-activity":
+        return after_activity_shard(args)
     country, tier = args
     part = par.Part()
     c = reg.countries()[country]
@@ -108,6 +112,34 @@ def shard(args):
     return part.done()
 
 
+def after_activity_shard(args):
+    """One process: the API prelude, then - for every country - failing assembly calls interleaved
+    with the 100-pair check of three family members."""
+    from ..engine import activity
+    _, tier = args
+    part = par.Part()
+    part.stat("prelude_calls", activity.exercise_api(report.SEED))
+    for country in sorted(reg.countries()):
+        c = reg.countries()[country]
+        fam, _ = residue_family(country, bases.bban(c, "distinct"), want=3 if tier == "quick" else 12)
+        for b in fam:
+            # refused calls between the assembly and the 100-pair check: too short, illegal
+            # character, unknown country
+            def refused(b=b):
+                lib.outcome(lib.IBAN.from_bban, country, b[:-1])
+                lib.outcome(lib.IBAN.from_bban, country, b[:-1] + "*")
+                lib.outcome(lib.IBAN.from_bban, "XX", b)
+                lib.outcome(lib.IBAN.generate, country, "1", "1-")
+
+            for sig, case, exp, obs in check_member(country, b, between=refused):
+                part.violation(sig + " [after refused calls / API activity]", case, exp, obs)
+            part["evals"] += 104
+            for d in range(100):
+                part.seen.add(hash(("after", d, country, b)))
+    part.stat("after_activity_shards")
+    return part.done()
+
+
 def replay(case: dict) -> dict:
     bad = check_member(case["country"], case["bban"])
     for sig, cs, exp, obs in bad:
@@ -119,7 +151,7 @@ def replay(case: dict) -> dict:
 def main(tier: str) -> int:
     run = report.Run(PID, tier, "exploration", RULE)
     countries = sorted(reg.countries())
-    par.run_shards(run, shard, [(c, tier) for c in countries])
+    par.run_shards(run, shard, [("after-activity", tier)] + [(c, tier) for c in countries])
     fams = run.stats.get("families", 0)
     run.exhaustive = (run.stats.get("families_not_residue_complete", 0) == 0)
     run.extra.update({
